@@ -533,6 +533,10 @@ pub fn add_venv(rng: &mut Rng, spec: &mut WsSpec, names: &[String]) {
         let pname = rng.pick(names).clone();
         let rel = "plugsrc/myplug/plugin.py".to_string();
         let mut plugin_items = vec![Item::Fixture(Fx { func: pname, ..Default::default() }), Item::Fixture(Fx { func: "plug_only".into(), ..Default::default() })];
+        if rng.chance(300) {
+            // the plugin overrides a fixture of the installed plugin under its own name and requests the parent
+            plugin_items.push(Item::Fixture(Fx { func: "tp_only".into(), deps: vec!["tp_only".into()], ..Default::default() }));
+        }
         if rng.chance(400) {
             // the plugin star-imports a helper module (which thereby provides plugin fixtures too); a conftest
             // somewhere below the root imports the same module: whoever the import scan visits first, the
